@@ -101,18 +101,18 @@ class Built:
 
 def _validator_fn(name, log):
     def never(cfg):
-        log.append(("schema", name))
+        log.append(("schema", name, id(cfg)))
         raise ValueError("never valid")
 
     def x_lt_y(cfg):
-        log.append(("schema", name))
+        log.append(("schema", name, id(cfg)))
         d = cfg._data
         x, y = d.get("x"), d.get("y")
         if isinstance(x, int) and isinstance(y, int) and not isinstance(x, bool) and not isinstance(y, bool) and not x < y:
             raise ValueError("x must be less than y")
 
     def always(cfg):
-        log.append(("schema", name))
+        log.append(("schema", name, id(cfg)))
     return {"never": never, "x_lt_y": x_lt_y, "always": always}[name]
 
 
